@@ -1,7 +1,6 @@
 ------------------------------ MODULE GossipKV ------------------------------
 (***************************************************************************)
-(* C04 / C06 - the gossiping memberlist KV (kv/memberlist) carrying ring   *)
-(* descriptors (ring/model.go), one key.                                   *)
+(* C04 / C06 - the gossiping memberlist KV (kv/memberlist), one key.       *)
 (*                                                                         *)
 (* Structured like memberlist_client.go: one action per critical section   *)
 (* the harness can separate (the harness IS the network):                  *)
@@ -10,30 +9,44 @@
 (*                              (localCAS) -> notifyWatchers ->            *)
 (*                              broadcastNewValue(localBroadcasts)         *)
 (*   Gossip(n)                  GetBroadcasts (local queue first)          *)
-(*   Deliver(p,n)               NotifyMsg -> per-key worker ->             *)
-(*                              processValueUpdate -> mergeValueForKey ->  *)
-(*                              notify -> re-broadcast of the change only  *)
+(*   Deliver(p,n)               NotifyMsg: with the worker gate of n open  *)
+(*                              the per-key worker runs to completion      *)
+(*                              (processValueUpdate -> mergeValueForKey -> *)
+(*                              notify -> re-broadcast of the change       *)
+(*                              only); with the gate closed the update is  *)
+(*                              taken by the worker / buffered in its      *)
+(*                              channel / dropped when the channel is full *)
+(*   Work(n)                    the blocked worker takes one step: the     *)
+(*                              merge (store write + notification), or the *)
+(*                              QueueBroadcast of an earlier merge         *)
+(*   GateClose/GateOpen         harness gates inside the codec             *)
 (*   DeliverGarbage(p,n,k)      NotifyMsg of a truncated / bit-flipped /   *)
 (*                              unknown-codec / empty-key packet           *)
 (*   PushPull(a,b,junk)         LocalState both sides, MergeRemoteState    *)
 (*                              both sides (junk: an unknown-codec pair is *)
 (*                              put in front of each buffer)               *)
+(*   DeleteKey(n) / Cleanup(n)  KV.Delete (key-level tombstone: Deleted    *)
+(*                              flag + UpdateTime) / cleanupObsoleteEntries*)
 (*   WatcherArm/WatcherRelease  a WatchKey callback that blocks / returns  *)
 (*   Partition/Heal/Restart     adversary                                  *)
 (* `sent` is the set of all packets ever taken out of any node: never      *)
 (* shrinking (ConsumeNet = FALSE), so any earlier message can reach any    *)
 (* node at any later time, any number of times, in any order.              *)
 (*                                                                         *)
-(* Value domain: ring descriptors restricted to entries without token      *)
-(* conflicts (every instance id has its own tokens), so Merge is entry-    *)
-(* wise: newest timestamp wins, LEFT wins ties, a local CAS turns entries  *)
-(* missing from the new value into LEFT tombstones stamped `clock`.        *)
+(* Value domain: a map id -> (timestamp, state) with a tombstone state,    *)
+(* merged entry-wise: newest timestamp wins, the tombstone wins ties, a    *)
+(* local CAS turns entries missing from the new value into tombstones      *)
+(* stamped `clock`.  The harness instantiates it twice: ring.Desc          *)
+(* (instances, LEFT; every instance id has its own tokens, so there are no *)
+(* token conflicts) and ring.PartitionRingDesc (partitions and owners,     *)
+(* PartitionDeleted / OwnerDeleted), whose Merge functions coincide on     *)
+(* this domain.                                                            *)
 (***************************************************************************)
 EXTENDS Integers, FiniteSets, Sequences, TLC, Json
 
 CONSTANTS
   N,              \* nodes 1..N
-  NI,             \* instance ids 1..NI
+  NI,             \* entry ids 1..NI
   MaxClock,       \* clock runs 0..MaxClock
   Retention,      \* LeftIngestersTimeout in seconds; 0 = tombstones are never collected
   T,              \* transmissions per queued broadcast (RetransmitMult * ceil(log10(N+1)))
@@ -43,15 +56,20 @@ CONSTANTS
   WatchNodes,     \* nodes with a registered WatchKey watcher
   HoldNodes,      \* watchers whose callback may block (subset of WatchNodes)
   AllowRestart, AllowGarbage, AllowPartition, AllowJunkPP,
+  GateNodes,      \* nodes whose per-key worker can be gated (Receive and Work become separate steps)
+  InboxCap,       \* capacity of the per-key worker channel (ProcessedMessagesQueueSize)
+  VersionTest,    \* TRUE: Invalidates compares versions (the code); FALSE: negative control
+  MaxDel,         \* bound on KV.Delete calls; 0 = key deletion not exercised
+  ObsoleteTimeout,\* ObsoleteEntriesTimeout in seconds
   ConsumeNet,     \* TRUE: a delivered packet leaves the network unless the adversary pays for a duplicate
   Ideal,          \* TRUE: what the property demands (= the code since the fix of finding F7); FALSE: the code before that fix
-  Ghost,          \* maintain the ghost variables inval / written / fwd
+  Ghost,          \* maintain the ghost variables inval / fwd
   Record,         \* maintain hist (behaviour generation)
   Quiesce,        \* run phase is followed by the deterministic quiescence suffix
   RunDepth,       \* length of the run phase when Quiesce
   QRounds         \* all-pairs push/pull rounds in the suffix
 
-ASSUME HoldNodes \subseteq WatchNodes /\ WatchNodes \subseteq 1..N
+ASSUME HoldNodes \subseteq WatchNodes /\ WatchNodes \subseteq 1..N /\ GateNodes \subseteq 1..N
 
 Node == 1..N
 Inst == 1..NI
@@ -64,36 +82,53 @@ Ids(d) == {i \in Inst : d[i] # Absent}
 Strip(d) == TLCEval([i \in Inst |-> IF d[i].st = LEFT THEN Absent ELSE d[i]])
 NoLeft(d) == \A i \in Inst : d[i].st # LEFT
 
+(* a message (KeyValuePair): the change, the key's Deleted flag and UpdateTime (-1 = zero time) *)
+Msg(c, d, u) == [chg |-> c, del |-> d, upd |-> u]
+Plain(c) == Msg(c, FALSE, -1)
+
 VARIABLES
   clock,
-  store,     \* store[n] = [val : Desc (tombstones included), ver : Nat]; ver = 0 <=> key not in the store
-  queueL,    \* queueL[n] : set of [chg : Desc, ver : Nat, left : 1..T]   (localBroadcasts)
-  queueG,    \* queueG[n] : same                                           (gossipBroadcasts)
-  watch,     \* watch[n] = [called, last, armed, held, pending]
-  sent,      \* packets (changes) taken out of the nodes by GetBroadcasts
+  store,     \* store[n] = [val : Desc (tombstones included), ver, del, upd]; ver = 0 <=> key not in the store
+  queueL,    \* queueL[n] : set of [chg, del, upd, ver, left : 1..T]   (localBroadcasts)
+  queueG,    \* queueG[n] : same                                        (gossipBroadcasts)
+  watch,     \* watch[n] = [called, last, armed, held, pending]   the WatchKey watcher
+  pw,        \* pw[n] = [called, last]   an un-gated WatchPrefix watcher
+  gate,      \* gate[n] : the worker of n blocks at its next Decode / Encode
+  wk,        \* wk[n] = [st : idle | dec | enc, m : message held, ver]   the per-key worker
+  inbox,     \* inbox[n] : sequence of messages in the worker channel
+  sent,      \* packets (messages) taken out of the nodes by GetBroadcasts
   cut,       \* isolated nodes
-  ncas, nfault,
+  ncas, nfault, ndel,
   phase, qidx,
   inval,     \* ghost: [o, b] pairs - broadcast o was invalidated by b in the last step
-  fwd,       \* ghost: [n, chg, local] - broadcasts queued in the last step
-  written,   \* ghost: <<i, entry>> ever produced by a CAS
+  fwd,       \* ghost: [n, chg, local] - changes produced by the merges of the last step
+  written,   \* <<i, entry>> ever produced by a CAS
   hist       \* behaviour so far (Record)
 
-vars == <<clock, store, queueL, queueG, watch, sent, cut, ncas, nfault, phase, qidx, inval, fwd, written, hist>>
-(* The exhaustive configurations identify states that differ only in the ghosts inval/fwd, in hist, and *)
-(* in version numbers: a version is only ever compared by Invalidates(b, o) with b the broadcast being  *)
-(* queued, whose version is larger than every queued one (VersionCountsChanges, TypeOK), so versions do *)
-(* not influence any other variable.                                                                    *)
+nodev == <<store, queueL, queueG, watch, pw>>
+wrk   == <<gate, wk, inbox>>
+net   == <<sent, cut>>
+bud   == <<ncas, nfault, ndel>>
+ctl   == <<phase, qidx>>
+vars  == <<clock, nodev, wrk, net, bud, ctl, inval, fwd, written, hist>>
+
+(* The exhaustive configurations identify states that differ only in the ghosts inval/fwd and in hist; and, *)
+(* when neither worker gates nor key deletion are exercised, in version numbers: a version is then only     *)
+(* ever compared by Invalidates(b, o) with b the broadcast being queued, whose version is larger than every *)
+(* queued one (VersionCountsChanges), so versions do not influence any other variable.                      *)
 NoVer(q) == {[chg |-> b.chg, left |-> b.left] : b \in q}
-view == <<clock, [n \in Node |-> <<store[n].val, store[n].ver > 0, NoVer(queueL[n]), NoVer(queueG[n])>>],
-          watch, sent, cut, ncas, nfault, phase, qidx, written>>
+view == IF GateNodes = {} /\ MaxDel = 0
+        THEN <<clock, [n \in Node |-> <<store[n].val, store[n].ver > 0, NoVer(queueL[n]), NoVer(queueG[n])>>],
+               watch, pw, sent, cut, bud, ctl, written>>
+        ELSE <<clock, nodev, wrk, net, bud, ctl, written>>
 
 -----------------------------------------------------------------------------
 (* TLC re-evaluates LET-bound expressions at every use; values that are used more than once are *)
 (* therefore bound through a singleton set (evaluated once).                                     *)
 Only(S) == CHOOSE x \in S : TRUE
 
-(* ring.Desc.mergeWithTime, entries without token conflicts: per entry [r = resulting entry, u = updated] *)
+(* Desc.mergeWithTime (ring.Desc without token conflicts; PartitionRingDesc partitions / owners): *)
+(* per entry [r = resulting entry, u = updated]                                                   *)
 EntryMerge(me, ot, cas, now) ==
   IF /\ ot # Absent
      /\ \/ me = Absent
@@ -108,43 +143,59 @@ Merge(mine, other, cas, now) ==
           change |-> TLCEval([i \in Inst |-> IF pe[i].u THEN pe[i].r ELSE Absent])]
          : pe \in {TLCEval([i \in Inst |-> EntryMerge(mine[i], other[i], cas, now)])} })
 
-(* Desc.RemoveTombstones(now - Retention): strictly older than the limit *)
+(* RemoveTombstones(now - Retention): strictly older than the limit *)
 Expired(e, now) == Retention > 0 /\ e.st = LEFT /\ e.ts < now - Retention
 GCd(d, now) == TLCEval([i \in Inst |-> IF Expired(d[i], now) THEN Absent ELSE d[i]])
 
-(* KV.mergeValueForKey (Deleted flag not modelled).  Returns the new store cell, the change to *)
-(* broadcast (Empty = none), whether watchers are notified, and whether this was the path on   *)
-(* which everything that came in was an expired tombstone (finding F7).                        *)
-MVBody(s, m, r, c) ==
-  LET no  == [st |-> s, chg |-> Empty, changed |-> FALSE, silent |-> "-"]
-      \* everything that came in was an expired tombstone: Merge has already applied it to the stored value in
-      \* place and RemoveTombstones has collected it again (together with every other expired tombstone)
-      tag == IF Ids(c) # {} THEN "-" ELSE IF Strip(r) # Strip(s.val) THEN "silentgc" ELSE "quietgc"
-  IN IF Ids(m.change) = {} THEN no
-     ELSE IF Ideal \/ Ids(c) # {}
-          THEN \* Merge reported a change: new version, watchers notified, the post-collection change (if any) gossiped
-               [st |-> [val |-> r, ver |-> s.ver + 1], chg |-> c, changed |-> TRUE, silent |-> tag]
-          ELSE \* finding F7, the code before its fix: "no change" is returned although the stored value was edited
-               \* in place - a live entry can vanish from readers without version bump or notification
-               IF s.ver = 0 THEN no
-               ELSE [st |-> [val |-> r, ver |-> s.ver], chg |-> Empty, changed |-> FALSE, silent |-> tag]
-MV(s, inc, cas, now) ==
-  Only({ Only({ MVBody(s, m, rc[1], rc[2]) : rc \in {<<GCd(m.result, now), GCd(m.change, now)>>} })
-         : m \in {IF s.ver = 0 THEN [result |-> inc, change |-> inc] ELSE Merge(s.val, inc, cas, now)} })
+C0 == [val |-> Empty, ver |-> 0, del |-> FALSE, upd |-> -1]
 
-ReadOf(s) == Strip(s.val)          \* KV.get: clone + RemoveTombstones(zero time); nil and empty coincide
-Read(n)   == ReadOf(store[n])
+(* KV.mergeValueForKey.  s: store cell, inc: incoming message, m: Merge outcome, r/c: result/change after *)
+(* tombstone collection.  Returns the new cell, the change to broadcast (bc: whether there is one), whether  *)
+(* watchers are notified, and a tag for the paths on which everything that came in was an expired tombstone. *)
+MVBody(s, inc, m, r, c) ==
+  LET no   == [st |-> s, chg |-> Empty, bc |-> FALSE, changed |-> FALSE, silent |-> "-"]
+      flip == inc.del /\ inc.upd # -1 /\ inc.upd > s.upd      \* an incoming Deleted flag newer than ours
+      nd   == s.del \/ flip
+      nu   == IF flip THEN inc.upd ELSE s.upd
+      cell(v) == [val |-> v, ver |-> s.ver + 1, del |-> nd, upd |-> nu]
+      tag  == IF Strip(r) # Strip(s.val) THEN "silentgc" ELSE "quietgc"
+  IN IF s.ver = 0 /\ inc.del THEN no                          \* a deleted key we do not have is not revived
+     ELSE IF Ids(m.change) = {} /\ nd = s.del THEN no
+     ELSE IF Ids(m.change) = {} \/ (Ids(c) = {} /\ nd # s.del)
+          THEN \* only the Deleted flag changes (or what came with it was collected): the whole value is the change
+               [st |-> cell(r), chg |-> r, bc |-> TRUE, changed |-> TRUE, silent |-> "-"]
+     ELSE IF Ids(c) # {}
+          THEN [st |-> cell(r), chg |-> c, bc |-> TRUE, changed |-> TRUE, silent |-> "-"]
+     ELSE \* everything that came in was an expired tombstone: Merge has already applied it to the stored value in
+          \* place and RemoveTombstones has collected it again (together with every other expired tombstone)
+          IF Ideal
+          THEN \* new version, watchers notified, nothing to gossip
+               [st |-> cell(r), chg |-> Empty, bc |-> FALSE, changed |-> TRUE, silent |-> tag]
+          ELSE \* finding F7, the code before its fix: "no change" is returned although the stored value was edited in
+               \* place - a live entry can vanish from readers without version bump or notification
+               IF s.ver = 0 THEN no
+               ELSE [st |-> [s EXCEPT !.val = r], chg |-> Empty, bc |-> FALSE, changed |-> FALSE, silent |-> tag]
+MV(s, inc, cas, now) ==
+  Only({ Only({ MVBody(s, inc, m, rc[1], rc[2]) : rc \in {<<GCd(m.result, now), GCd(m.change, now)>>} })
+         : m \in {IF s.ver = 0 THEN [result |-> inc.chg, change |-> inc.chg] ELSE Merge(s.val, inc.chg, cas, now)} })
+
+ReadOf(s) == Strip(s.val)          \* KV.get: clone + RemoveTombstones(zero time); nil and empty coincide;
+Read(n)   == ReadOf(store[n])      \* the Deleted flag does NOT hide the value (observation O2)
 
 (* ringBroadcast.Invalidates / TransmitLimitedQueue.QueueBroadcast *)
-Invalidates(b, o) == Ids(o.chg) \subseteq Ids(b.chg) /\ b.ver >= o.ver
+Invalidates(b, o) == Ids(o.chg) \subseteq Ids(b.chg) /\ (~VersionTest \/ b.ver >= o.ver)
 Enq(q, b)    == {o \in q : ~Invalidates(b, o)} \cup {b}
 Killed(q, b) == {o \in q : Invalidates(b, o)}
+MsgOf(b) == Msg(b.chg, b.del, b.upd)
+BC(chg, cell) == [chg |-> chg, del |-> cell.del, upd |-> cell.upd, ver |-> cell.ver, left |-> T]
 
 (* notifyWatchersSync + the WatchKey loop with its capacity-1 channel *)
 Notify(w, rd) == IF w.held THEN [w EXCEPT !.pending = TRUE]
                  ELSE IF w.armed THEN [w EXCEPT !.called = TRUE, !.last = rd, !.armed = FALSE, !.held = TRUE]
                  ELSE [w EXCEPT !.called = TRUE, !.last = rd]
-W0 == [called |-> FALSE, last |-> Empty, armed |-> FALSE, held |-> FALSE, pending |-> FALSE]
+W0  == [called |-> FALSE, last |-> Empty, armed |-> FALSE, held |-> FALSE, pending |-> FALSE]
+PW0 == [called |-> FALSE, last |-> Empty]
+WK0 == [st |-> "idle", m |-> Plain(Empty), ver |-> 0]
 
 (* the functions handed to CAS *)
 Fn == [op : {"hb", "rm"}, i : Inst, s : {"-"}] \cup [op : {"set"}, i : Inst, s : LiveStates]
@@ -156,27 +207,34 @@ Apply(f, in, now) ==
     [] f.op = "rm"  -> [ok |-> TRUE, d |-> [in EXCEPT ![f.i] = Absent]]
 
 -----------------------------------------------------------------------------
-(* effect of one merge result r on node n *)
+(* effect of one merge result r on node n when merge, notification and QueueBroadcast happen in one step *)
 After(n, r, local) ==
-  LET b == [chg |-> r.chg, ver |-> r.st.ver, left |-> T]
-      q == Ids(r.chg) # {}
+  LET b == BC(r.chg, r.st)
+      q == r.bc
   IN TLCEval([st |-> r.st,
       w  |-> IF r.changed /\ n \in WatchNodes THEN Notify(watch[n], ReadOf(r.st)) ELSE watch[n],
+      pw |-> IF r.changed THEN [called |-> TRUE, last |-> ReadOf(r.st)] ELSE pw[n],
       ql |-> IF q /\ local THEN Enq(queueL[n], b) ELSE queueL[n],
       qg |-> IF q /\ ~local THEN Enq(queueG[n], b) ELSE queueG[n],
-      kill |-> IF ~q THEN {} ELSE {[o |-> o.chg, b |-> r.chg] : o \in Killed(IF local THEN queueL[n] ELSE queueG[n], b)},
+      kill |-> IF ~q THEN {} ELSE {[o |-> o.chg, od |-> o.del, ou |-> o.upd, b |-> r.chg] : o \in Killed(IF local THEN queueL[n] ELSE queueG[n], b)},
       fwd  |-> IF q THEN {[n |-> n, chg |-> r.chg, local |-> local]} ELSE {}])
 
-Proj(st, ql, qg, w, clk) ==
+Proj(st, ql, qg, w, p, g, k, ib, clk) ==
   [clock |-> clk,
-   nodes |-> [n \in Node |-> [val |-> st[n].val, ver |-> st[n].ver, read |-> ReadOf(st[n]),
+   nodes |-> [n \in Node |-> [val |-> st[n].val, ver |-> st[n].ver, del |-> st[n].del, upd |-> st[n].upd,
+                               read |-> ReadOf(st[n]),
                                ql |-> Cardinality(ql[n]), qg |-> Cardinality(qg[n]),
-                               called |-> w[n].called, last |-> w[n].last, held |-> w[n].held, pending |-> w[n].pending]]]
+                               called |-> w[n].called, last |-> w[n].last, held |-> w[n].held, pending |-> w[n].pending,
+                               pcalled |-> p[n].called, plast |-> p[n].last,
+                               gate |-> g[n], wk |-> k[n].st, ib |-> Len(ib[n])]]]
 
-R0 == [a |-> "", n |-> 0, m |-> 0, f |-> [op |-> "-", i |-> 0, s |-> "-"], p |-> Empty, k |-> "-",
+R0 == [a |-> "", n |-> 0, m |-> 0, f |-> [op |-> "-", i |-> 0, s |-> "-"], p |-> Empty, pd |-> FALSE, pu |-> -1, k |-> "-",
        out |-> {}, res |-> "-", note |-> "-"]
+WithMsg(rec, msg) == [rec EXCEPT !.p = msg.chg, !.pd = msg.del, !.pu = msg.upd]
 
-Log(rec) == hist' = IF Record THEN Append(hist, rec @@ [post |-> Proj(store', queueL', queueG', watch', clock')]) ELSE hist
+Log(rec) == hist' = IF Record
+                    THEN Append(hist, rec @@ [post |-> Proj(store', queueL', queueG', watch', pw', gate', wk', inbox', clock')])
+                    ELSE hist
 GhostStep(k, fw) == /\ inval' = IF Ghost THEN k ELSE {}
                     /\ fwd'   = IF Ghost THEN fw ELSE {}
 NoGhost == GhostStep({}, {})
@@ -184,13 +242,17 @@ NoGhost == GhostStep({}, {})
 -----------------------------------------------------------------------------
 Init ==
   /\ clock = 0
-  /\ store  = [n \in Node |-> [val |-> Empty, ver |-> 0]]
+  /\ store  = [n \in Node |-> C0]
   /\ queueL = [n \in Node |-> {}]
   /\ queueG = [n \in Node |-> {}]
   /\ watch  = [n \in Node |-> W0]
+  /\ pw     = [n \in Node |-> PW0]
+  /\ gate   = [n \in Node |-> FALSE]
+  /\ wk     = [n \in Node |-> WK0]
+  /\ inbox  = [n \in Node |-> <<>>]
   /\ sent = {}
   /\ cut = {}
-  /\ ncas = 0 /\ nfault = 0
+  /\ ncas = 0 /\ nfault = 0 /\ ndel = 0
   /\ phase = "run" /\ qidx = 1
   /\ inval = {} /\ fwd = {} /\ written = {}
   /\ hist = <<>>
@@ -198,50 +260,57 @@ Init ==
 Tick ==
   /\ clock < MaxClock
   /\ clock' = clock + 1
-  /\ UNCHANGED <<store, queueL, queueG, watch, sent, cut, ncas, nfault, phase, qidx, written>>
+  /\ UNCHANGED <<nodev, wrk, net, bud, ctl, written>>
   /\ NoGhost
   /\ Log([R0 EXCEPT !.a = "Tick"])
 
-(* Workload proviso (the one of C03): an instance's entry never gets two different live contents  *)
-(* with the same timestamp - in dskit an entry is written by its own lifecycler only, and a second *)
-(* write within the same second is "no change".  Removals are exempt (LEFT wins ties).             *)
+(* Workload proviso (the one of C03): an entry never gets two different live contents with the same  *)
+(* timestamp - in dskit an entry is written by its own lifecycler only, and a second write within the *)
+(* same second is "no change".  Removals are exempt (the tombstone wins ties).                        *)
 OneContentPerSecond(chg) ==
   \A i \in Ids(chg) : \A w \in written :
      (w[1] = i /\ w[2].ts = chg[i].ts /\ w[2].st # LEFT /\ chg[i].st # LEFT) => w[2] = chg[i]
 
-Cas(n, f) ==
+CasN(n, f, note) ==
   /\ ncas < MaxCas
   /\ ncas' = ncas + 1
+  /\ UNCHANGED <<nfault, ndel>>
   /\ \E ap \in {Apply(f, Read(n), clock)} :
-     \E r \in {MV(store[n], ap.d, store[n].ver > 0, clock)} :
+     \E r \in {MV(store[n], Plain(ap.d), store[n].ver > 0, clock)} :
      \E x \in {After(n, r, TRUE)} :
      LET res == IF ~ap.ok THEN "nil" ELSE IF r.changed THEN "ok" ELSE "nochange"
      IN /\ OneContentPerSecond(r.chg)
         /\ IF ap.ok /\ r.changed
            THEN /\ store'  = [store  EXCEPT ![n] = x.st]
                 /\ watch'  = [watch  EXCEPT ![n] = x.w]
+                /\ pw'     = [pw     EXCEPT ![n] = x.pw]
                 /\ queueL' = [queueL EXCEPT ![n] = x.ql]
                 /\ UNCHANGED queueG
                 /\ GhostStep(x.kill, x.fwd)
                 /\ written' = written \cup {<<i, r.chg[i]>> : i \in Ids(r.chg)}
-                /\ UNCHANGED <<clock, sent, cut, nfault, phase, qidx>>
-                /\ Log([R0 EXCEPT !.a = "Cas", !.n = n, !.f = f, !.res = res, !.p = r.chg])
+                /\ UNCHANGED <<clock, wrk, net, ctl>>
+                /\ Log(WithMsg([R0 EXCEPT !.a = "Cas", !.n = n, !.f = f, !.res = res, !.note = note], MsgOf(BC(r.chg, r.st))))
            ELSE \* f returned nil, or Merge saw no change: CAS sleeps 1 s and retries; the caller gives up
-                /\ UNCHANGED <<clock, store, queueL, queueG, watch, sent, cut, nfault, phase, qidx, written>>
+                /\ UNCHANGED <<clock, nodev, wrk, net, ctl, written>>
                 /\ NoGhost
-                /\ Log([R0 EXCEPT !.a = "Cas", !.n = n, !.f = f, !.res = res])
+                /\ Log([R0 EXCEPT !.a = "Cas", !.n = n, !.f = f, !.res = res, !.note = note])
+Cas(n, f) == CasN(n, f, "-")
 
 Dec(q) == {[b EXCEPT !.left = b.left - 1] : b \in {x \in q : x.left > 1}}
 
 Gossip(n) ==
   /\ queueL[n] \cup queueG[n] # {}
-  /\ LET out == {b.chg : b \in queueL[n] \cup queueG[n]} IN
+  /\ LET out == {MsgOf(b) : b \in queueL[n] \cup queueG[n]} IN
        /\ sent' = IF n \in cut THEN sent ELSE sent \cup out      \* an isolated node's packets are lost
        /\ queueL' = [queueL EXCEPT ![n] = Dec(queueL[n])]
        /\ queueG' = [queueG EXCEPT ![n] = Dec(queueG[n])]
-       /\ UNCHANGED <<clock, store, watch, cut, ncas, nfault, phase, qidx, written>>
+       /\ UNCHANGED <<clock, store, watch, pw, wrk, cut, bud, ctl, written>>
        /\ NoGhost
        /\ Log([R0 EXCEPT !.a = "Gossip", !.n = n, !.out = out, !.res = IF n \in cut THEN "lost" ELSE "kept"])
+
+(* what the worker of n does after finishing an update: the gate is closed whenever a worker was held *)
+NextItem(n) == IF inbox[n] = <<>> THEN [wk |-> WK0, ib |-> <<>>]
+               ELSE [wk |-> [st |-> "dec", m |-> Head(inbox[n]), ver |-> 0], ib |-> Tail(inbox[n])]
 
 Deliver(p, n, keep) ==
   /\ p \in sent
@@ -250,35 +319,115 @@ Deliver(p, n, keep) ==
        THEN IF keep THEN nfault < MaxFaults /\ nfault' = nfault + 1 /\ sent' = sent
                     ELSE nfault' = nfault /\ sent' = sent \ {p}
        ELSE ~keep /\ nfault' = nfault /\ sent' = sent
-  /\ \E r \in {MV(store[n], p, FALSE, clock)} :
-     \E x \in {After(n, r, FALSE)} :
-        /\ store'  = [store  EXCEPT ![n] = x.st]
-        /\ watch'  = [watch  EXCEPT ![n] = x.w]
-        /\ queueG' = [queueG EXCEPT ![n] = x.qg]
-        /\ UNCHANGED <<clock, queueL, cut, ncas, phase, qidx, written>>
-        /\ GhostStep(x.kill, x.fwd)
-        /\ Log([R0 EXCEPT !.a = "Deliver", !.n = n, !.p = p,
-                          !.res = IF r.changed THEN "ok" ELSE "nochange",
-                          !.note = r.silent])
+  /\ UNCHANGED <<clock, queueL, cut, ncas, ndel, ctl, written, gate>>
+  /\ IF wk[n].st = "idle" /\ ~gate[n]
+     THEN \* NotifyMsg and the complete run of the per-key worker
+          \E r \in {MV(store[n], p, FALSE, clock)} :
+          \E x \in {After(n, r, FALSE)} :
+             /\ store'  = [store  EXCEPT ![n] = x.st]
+             /\ watch'  = [watch  EXCEPT ![n] = x.w]
+             /\ pw'     = [pw     EXCEPT ![n] = x.pw]
+             /\ queueG' = [queueG EXCEPT ![n] = x.qg]
+             /\ UNCHANGED <<wk, inbox>>
+             /\ GhostStep(x.kill, x.fwd)
+             /\ Log(WithMsg([R0 EXCEPT !.a = "Deliver", !.n = n, !.res = IF r.changed THEN "ok" ELSE "nochange",
+                                       !.note = r.silent], p))
+     ELSE /\ UNCHANGED <<store, watch, pw, queueG>>
+          /\ NoGhost
+          /\ IF wk[n].st = "idle"
+             THEN \* the worker takes the update out of its channel and blocks in Decode
+                  /\ wk' = [wk EXCEPT ![n] = [st |-> "dec", m |-> p, ver |-> 0]]
+                  /\ UNCHANGED inbox
+                  /\ Log(WithMsg([R0 EXCEPT !.a = "Deliver", !.n = n, !.res = "taken"], p))
+             ELSE IF Len(inbox[n]) < InboxCap
+                  THEN /\ inbox' = [inbox EXCEPT ![n] = Append(inbox[n], p)]
+                       /\ UNCHANGED wk
+                       /\ Log(WithMsg([R0 EXCEPT !.a = "Deliver", !.n = n, !.res = "buffered"], p))
+                  ELSE \* "notify queue full, dropping message"
+                       /\ UNCHANGED <<wk, inbox>>
+                       /\ Log(WithMsg([R0 EXCEPT !.a = "Deliver", !.n = n, !.res = "dropped"], p))
 
-GarbageKinds == {"truncated", "bitflip", "badcodec", "emptykey"}
+(* one step of a gated worker: processValueUpdate up to its next Decode / Encode *)
+WorkBody(n) ==
+  /\ wk[n].st # "idle"
+  /\ UNCHANGED <<clock, queueL, net, bud, written, gate>>
+  /\ IF wk[n].st = "dec"
+     THEN \* mergeBytesValueForKey + notifyWatchers; broadcastNewValue then blocks in Encode
+          \E r \in {MV(store[n], wk[n].m, FALSE, clock)} :
+          \E x \in {After(n, r, FALSE)} :
+          \E nx \in {NextItem(n)} :
+             /\ store' = [store EXCEPT ![n] = x.st]
+             /\ watch' = [watch EXCEPT ![n] = x.w]
+             /\ pw'    = [pw    EXCEPT ![n] = x.pw]
+             /\ UNCHANGED queueG
+             /\ IF r.bc THEN /\ wk' = [wk EXCEPT ![n] = [st |-> "enc", m |-> MsgOf(BC(r.chg, r.st)), ver |-> r.st.ver]]
+                             /\ UNCHANGED inbox
+                        ELSE /\ wk' = [wk EXCEPT ![n] = nx.wk]
+                             /\ inbox' = [inbox EXCEPT ![n] = nx.ib]
+             /\ GhostStep({}, x.fwd)
+             /\ Log(WithMsg([R0 EXCEPT !.a = "Work", !.n = n, !.res = IF r.changed THEN "merged" ELSE "nochange", !.note = r.silent], wk[n].m))
+     ELSE \* QueueBroadcast(gossipBroadcasts) of the change of an earlier merge - possibly after newer ones
+          \E b \in {[chg |-> wk[n].m.chg, del |-> wk[n].m.del, upd |-> wk[n].m.upd, ver |-> wk[n].ver, left |-> T]} :
+          \E nx \in {NextItem(n)} :
+             /\ queueG' = [queueG EXCEPT ![n] = Enq(queueG[n], b)]
+             /\ wk' = [wk EXCEPT ![n] = nx.wk]
+             /\ inbox' = [inbox EXCEPT ![n] = nx.ib]
+             /\ UNCHANGED <<store, watch, pw>>
+             /\ GhostStep({[o |-> o.chg, od |-> o.del, ou |-> o.upd, b |-> b.chg] : o \in Killed(queueG[n], b)}, {})
+             /\ Log(WithMsg([R0 EXCEPT !.a = "Work", !.n = n, !.res = "queued"], wk[n].m))
+
+Work(n) == WorkBody(n) /\ UNCHANGED ctl
+
+GateClose(n) ==
+  /\ n \in GateNodes /\ ~gate[n]
+  /\ gate' = [gate EXCEPT ![n] = TRUE]
+  /\ UNCHANGED <<clock, nodev, wk, inbox, net, bud, ctl, written>>
+  /\ NoGhost
+  /\ Log([R0 EXCEPT !.a = "GateClose", !.n = n])
+
+GateOpen(n) ==
+  /\ gate[n] /\ wk[n].st = "idle"
+  /\ gate' = [gate EXCEPT ![n] = FALSE]
+  /\ UNCHANGED <<clock, nodev, wk, inbox, net, bud, ctl, written>>
+  /\ NoGhost
+  /\ Log([R0 EXCEPT !.a = "GateOpen", !.n = n])
+
+(* Malformed packets.  truncated / badcodec / emptykey are rejected by NotifyMsg itself.  badvalue has an intact *)
+(* envelope (key, known codec) around value bytes the codec cannot decode: it travels through the worker channel *)
+(* like any update and fails in the worker's Decode - with a closed gate it occupies the worker / a channel slot. *)
+GarbageKinds == {"truncated", "badcodec", "emptykey", "badvalue"}
+Undecodable == Msg(Empty, FALSE, -2)
 DeliverGarbage(p, n, k) ==
   /\ AllowGarbage /\ nfault < MaxFaults
   /\ p \in sent /\ n \notin cut
   /\ nfault' = nfault + 1
-  /\ UNCHANGED <<clock, store, queueL, queueG, watch, sent, cut, ncas, phase, qidx, written>>
+  /\ UNCHANGED <<clock, nodev, gate, net, ncas, ndel, ctl, written>>
   /\ NoGhost
-  /\ Log([R0 EXCEPT !.a = "Garbage", !.n = n, !.p = p, !.k = k])
+  /\ IF k # "badvalue" \/ (wk[n].st = "idle" /\ ~gate[n])
+     THEN /\ UNCHANGED <<wk, inbox>>
+          /\ Log(WithMsg([R0 EXCEPT !.a = "Garbage", !.n = n, !.k = k], p))
+     ELSE IF wk[n].st = "idle"
+          THEN /\ wk' = [wk EXCEPT ![n] = [st |-> "dec", m |-> Undecodable, ver |-> 0]]
+               /\ UNCHANGED inbox
+               /\ Log(WithMsg([R0 EXCEPT !.a = "Garbage", !.n = n, !.k = k, !.res = "taken"], p))
+          ELSE IF Len(inbox[n]) < InboxCap
+               THEN /\ inbox' = [inbox EXCEPT ![n] = Append(inbox[n], Undecodable)]
+                    /\ UNCHANGED wk
+                    /\ Log(WithMsg([R0 EXCEPT !.a = "Garbage", !.n = n, !.k = k, !.res = "buffered"], p))
+               ELSE /\ UNCHANGED <<wk, inbox>>
+                    /\ Log(WithMsg([R0 EXCEPT !.a = "Garbage", !.n = n, !.k = k, !.res = "dropped"], p))
 
-(* memberlist push/pull: both sides take LocalState first, then both merge *)
+(* memberlist push/pull: both sides take LocalState first, then both merge (MergeRemoteState is synchronous) *)
+LocalStateOf(n) == Msg(store[n].val, store[n].del, store[n].upd)
 PPStep(a, b, junk, name) ==
-  /\ UNCHANGED <<clock, queueL, sent, cut, ncas, written>>
-  /\ \E ra \in {IF store[b].ver = 0 THEN MV(store[a], Empty, FALSE, clock) ELSE MV(store[a], store[b].val, FALSE, clock)} :
-     \E rb \in {IF store[a].ver = 0 THEN MV(store[b], Empty, FALSE, clock) ELSE MV(store[b], store[a].val, FALSE, clock)} :
+  /\ UNCHANGED <<clock, queueL, wrk, net, ncas, ndel, written>>
+  /\ \E ra \in {IF store[b].ver = 0 THEN MV(store[a], Plain(Empty), FALSE, clock) ELSE MV(store[a], LocalStateOf(b), FALSE, clock)} :
+     \E rb \in {IF store[a].ver = 0 THEN MV(store[b], Plain(Empty), FALSE, clock) ELSE MV(store[b], LocalStateOf(a), FALSE, clock)} :
      \E xa \in {After(a, ra, FALSE)} :
      \E xb \in {After(b, rb, FALSE)} :
         /\ store'  = [store  EXCEPT ![a] = xa.st, ![b] = xb.st]
         /\ watch'  = [watch  EXCEPT ![a] = xa.w,  ![b] = xb.w]
+        /\ pw'     = [pw     EXCEPT ![a] = xa.pw, ![b] = xb.pw]
         /\ queueG' = [queueG EXCEPT ![a] = xa.qg, ![b] = xb.qg]
         /\ GhostStep(xa.kill \cup xb.kill, xa.fwd \cup xb.fwd)
         /\ Log([R0 EXCEPT !.a = name, !.n = a, !.m = b, !.k = IF junk THEN "junk" ELSE "-",
@@ -288,12 +437,41 @@ PushPull(a, b, junk) ==
   /\ a < b /\ a \notin cut /\ b \notin cut
   /\ IF junk THEN AllowJunkPP /\ nfault < MaxFaults /\ nfault' = nfault + 1 ELSE nfault' = nfault
   /\ PPStep(a, b, junk, "PushPull")
-  /\ UNCHANGED <<phase, qidx>>
+  /\ UNCHANGED ctl
+
+(* KV.Delete: marks the key deleted (key-level tombstone stamped now), notifies, gossips the whole value *)
+DeleteKey(n) ==
+  /\ ndel < MaxDel
+  /\ ndel' = ndel + 1
+  /\ UNCHANGED <<clock, queueL, wrk, net, ncas, nfault, ctl, written>>
+  /\ IF store[n].ver = 0 \/ store[n].del
+     THEN /\ UNCHANGED <<store, watch, pw, queueG>>
+          /\ NoGhost
+          /\ Log([R0 EXCEPT !.a = "Delete", !.n = n, !.res = "noop"])
+     ELSE \E r \in {MV(store[n], Msg(store[n].val, TRUE, clock), FALSE, clock)} :
+          \E x \in {After(n, r, FALSE)} :
+             /\ store'  = [store  EXCEPT ![n] = x.st]
+             /\ watch'  = [watch  EXCEPT ![n] = x.w]
+             /\ pw'     = [pw     EXCEPT ![n] = x.pw]
+             /\ queueG' = [queueG EXCEPT ![n] = x.qg]
+             /\ GhostStep(x.kill, {})
+             /\ Log([R0 EXCEPT !.a = "Delete", !.n = n, !.res = "ok"])
+
+(* cleanupObsoleteEntries: the key leaves the store once its deletion is older than the timeout; watchers *)
+(* are not told (observation O3).  Only modelled while the worker of n is idle.                           *)
+Obsolete(s, now) == s.ver # 0 /\ s.del /\ now - s.upd > ObsoleteTimeout
+Cleanup(n) ==
+  /\ MaxDel > 0
+  /\ wk[n].st = "idle"
+  /\ store' = [store EXCEPT ![n] = IF Obsolete(store[n], clock) THEN C0 ELSE store[n]]
+  /\ UNCHANGED <<clock, queueL, queueG, watch, pw, wrk, net, bud, ctl, written>>
+  /\ NoGhost
+  /\ Log([R0 EXCEPT !.a = "Cleanup", !.n = n, !.res = IF Obsolete(store[n], clock) THEN "removed" ELSE "kept"])
 
 WatcherArm(n) ==
   /\ n \in HoldNodes /\ ~watch[n].held /\ ~watch[n].armed
   /\ watch' = [watch EXCEPT ![n].armed = TRUE]
-  /\ UNCHANGED <<clock, store, queueL, queueG, sent, cut, ncas, nfault, phase, qidx, written>>
+  /\ UNCHANGED <<clock, store, queueL, queueG, pw, wrk, net, bud, ctl, written>>
   /\ NoGhost
   /\ Log([R0 EXCEPT !.a = "Arm", !.n = n])
 
@@ -303,62 +481,78 @@ Released(n) == IF watch[n].pending
 WatcherRelease(n) ==
   /\ watch[n].held
   /\ watch' = [watch EXCEPT ![n] = Released(n)]
-  /\ UNCHANGED <<clock, store, queueL, queueG, sent, cut, ncas, nfault, phase, qidx, written>>
+  /\ UNCHANGED <<clock, store, queueL, queueG, pw, wrk, net, bud, ctl, written>>
   /\ NoGhost
   /\ Log([R0 EXCEPT !.a = "Release", !.n = n])
 
 Partition(S) ==
   /\ AllowPartition /\ nfault < MaxFaults /\ cut = {} /\ S # {} /\ S # Node
   /\ cut' = S /\ nfault' = nfault + 1
-  /\ UNCHANGED <<clock, store, queueL, queueG, watch, sent, ncas, phase, qidx, written>>
+  /\ UNCHANGED <<clock, nodev, wrk, sent, ncas, ndel, ctl, written>>
   /\ NoGhost
   /\ Log([R0 EXCEPT !.a = "Partition", !.out = S])
 
 Heal ==
   /\ cut # {}
   /\ cut' = {}
-  /\ UNCHANGED <<clock, store, queueL, queueG, watch, sent, ncas, nfault, phase, qidx, written>>
+  /\ UNCHANGED <<clock, nodev, wrk, sent, bud, ctl, written>>
   /\ NoGhost
   /\ Log([R0 EXCEPT !.a = "Heal"])
 
 Restart(n) ==
   /\ AllowRestart /\ nfault < MaxFaults
   /\ nfault' = nfault + 1
-  /\ store'  = [store  EXCEPT ![n] = [val |-> Empty, ver |-> 0]]
+  /\ store'  = [store  EXCEPT ![n] = C0]
   /\ queueL' = [queueL EXCEPT ![n] = {}]
   /\ queueG' = [queueG EXCEPT ![n] = {}]
   /\ watch'  = [watch  EXCEPT ![n] = W0]
-  /\ UNCHANGED <<clock, sent, cut, ncas, phase, qidx, written>>
+  /\ pw'     = [pw     EXCEPT ![n] = PW0]
+  /\ gate'   = [gate   EXCEPT ![n] = FALSE]
+  /\ wk'     = [wk     EXCEPT ![n] = WK0]
+  /\ inbox'  = [inbox  EXCEPT ![n] = <<>>]
+  /\ UNCHANGED <<clock, net, ncas, ndel, ctl, written>>
   /\ NoGhost
   /\ Log([R0 EXCEPT !.a = "Restart", !.n = n])
 
 -----------------------------------------------------------------------------
-(* Quiescence suffix: heal, QRounds rounds of all-pairs push/pull, release every watcher. *)
+(* Quiescence suffix: every gated worker is stepped until idle and its gate opened, heal, QRounds rounds of *)
+(* all-pairs push/pull, release of every watcher.                                                          *)
 AllPairs == [k \in 1..(N * N) |-> <<((k - 1) \div N) + 1, ((k - 1) % N) + 1>>]
 PairSeq  == SelectSeq(AllPairs, LAMBDA pr : pr[1] < pr[2])
 RECURSIVE Rep(_, _)
 Rep(s, k) == IF k = 0 THEN <<>> ELSE s \o Rep(s, k - 1)
-QPlan == <<<<"heal", 0, 0>>>> \o Rep([k \in 1..Len(PairSeq) |-> <<"pp", PairSeq[k][1], PairSeq[k][2]>>], QRounds)
+GateSeq  == SelectSeq([n \in 1..N |-> n], LAMBDA n : n \in GateNodes)
+DrainOne(n) == Rep(<<<<"work", n, 0>>>>, 2 * (InboxCap + 1)) \o <<<<"open", n, 0>>>>
+RECURSIVE DrainAll(_)
+DrainAll(s) == IF s = <<>> THEN <<>> ELSE DrainOne(Head(s)) \o DrainAll(Tail(s))
+QPlan == DrainAll(GateSeq) \o <<<<"heal", 0, 0>>>>
+         \o Rep([k \in 1..Len(PairSeq) |-> <<"pp", PairSeq[k][1], PairSeq[k][2]>>], QRounds)
          \o [n \in 1..N |-> <<"rel", n, 0>>]
 
 StartQuiesce ==
   /\ Quiesce /\ phase = "run" /\ Len(hist) >= RunDepth
   /\ phase' = "quiesce"
-  /\ UNCHANGED <<clock, store, queueL, queueG, watch, sent, cut, ncas, nfault, qidx, written, hist>>
+  /\ UNCHANGED <<clock, nodev, wrk, net, bud, qidx, written, hist>>
   /\ NoGhost
 
 QStep ==
   /\ phase = "quiesce"
   /\ IF qidx > Len(QPlan)
        THEN /\ phase' = "done"
-            /\ UNCHANGED <<clock, store, queueL, queueG, watch, sent, cut, ncas, nfault, qidx, written, hist>>
+            /\ UNCHANGED <<clock, nodev, wrk, net, bud, qidx, written, hist>>
             /\ NoGhost
        ELSE LET s == QPlan[qidx] IN
             /\ qidx' = qidx + 1
             /\ phase' = phase
-            /\ CASE s[1] = "heal" /\ cut # {} ->
+            /\ CASE s[1] = "work" /\ wk[s[2]].st # "idle" -> WorkBody(s[2])
+                 [] s[1] = "open" /\ gate[s[2]] /\ wk[s[2]].st = "idle" ->
+                      /\ gate' = [gate EXCEPT ![s[2]] = FALSE]
+                      /\ UNCHANGED <<clock, nodev, wk, inbox, net, bud, written>>
+                      /\ NoGhost
+                      /\ Log([R0 EXCEPT !.a = "GateOpen", !.n = s[2]])
+                 [] s[1] = "heal" /\ cut # {} ->
                       /\ cut' = {}
-                      /\ UNCHANGED <<clock, store, queueL, queueG, watch, sent, ncas, nfault, written>>
+                      /\ UNCHANGED <<clock, nodev, wrk, sent, bud, written>>
                       /\ NoGhost
                       /\ Log([R0 EXCEPT !.a = "Heal"])
                  [] s[1] = "pp" /\ cut = {} ->
@@ -366,11 +560,11 @@ QStep ==
                       /\ UNCHANGED nfault
                  [] s[1] = "rel" /\ watch[s[2]].held ->
                       /\ watch' = [watch EXCEPT ![s[2]] = Released(s[2])]
-                      /\ UNCHANGED <<clock, store, queueL, queueG, sent, cut, ncas, nfault, written>>
+                      /\ UNCHANGED <<clock, store, queueL, queueG, pw, wrk, net, bud, written>>
                       /\ NoGhost
                       /\ Log([R0 EXCEPT !.a = "Release", !.n = s[2]])
                  [] OTHER ->
-                      /\ UNCHANGED <<clock, store, queueL, queueG, watch, sent, cut, ncas, nfault, written, hist>>
+                      /\ UNCHANGED <<clock, nodev, wrk, net, bud, written, hist>>
                       /\ NoGhost
 
 RunG == phase = "run" /\ (~Quiesce \/ Len(hist) < RunDepth)
@@ -379,69 +573,142 @@ ATick      == RunG /\ Tick
 ACas       == RunG /\ \E n \in Node, f \in Fn : Cas(n, f)
 AGossip    == RunG /\ \E n \in Node : Gossip(n)
 ADeliver   == RunG /\ \E p \in sent, n \in Node, keep \in BOOLEAN : Deliver(p, n, keep)
+AWork      == RunG /\ \E n \in Node : Work(n)
+AGateClose == RunG /\ \E n \in Node : GateClose(n)
+AGateOpen  == RunG /\ \E n \in Node : GateOpen(n)
 AGarbage   == RunG /\ \E p \in sent, n \in Node, k \in GarbageKinds : DeliverGarbage(p, n, k)
 APushPull  == RunG /\ \E a, b \in Node, junk \in BOOLEAN : PushPull(a, b, junk)
+ADelete    == RunG /\ \E n \in Node : DeleteKey(n)
+ACleanup   == RunG /\ \E n \in Node : Cleanup(n)
 AArm       == RunG /\ \E n \in Node : WatcherArm(n)
 ARelease   == RunG /\ \E n \in Node : WatcherRelease(n)
 ARestart   == RunG /\ \E n \in Node : Restart(n)
 APartition == RunG /\ \E S \in SUBSET Node : Partition(S)
 AHeal      == RunG /\ Heal
-Next == \/ ATick \/ ACas \/ AGossip \/ ADeliver \/ AGarbage \/ APushPull \/ AArm \/ ARelease \/ ARestart \/ APartition \/ AHeal
+Next == \/ ATick \/ ACas \/ AGossip \/ ADeliver \/ AWork \/ AGateClose \/ AGateOpen \/ AGarbage \/ APushPull
+        \/ ADelete \/ ACleanup \/ AArm \/ ARelease \/ ARestart \/ APartition \/ AHeal
         \/ StartQuiesce
         \/ QStep
 
 Spec == Init /\ [][Next]_vars
 
+-----------------------------------------------------------------------------
 (* Behaviour generation (-simulate): the parameters of every action are drawn with RandomElement, *)
 (* so that one step costs one successor instead of the whole fan-out.                             *)
 RE(S) == RandomElement(S)
 RunOK == phase = "run" /\ Len(hist) < RunDepth
 OpMix == <<"hb", "hb", "rm", "rm", "set">>
 MkFn(k, i, st) == IF OpMix[k] = "set" THEN [op |-> "set", i |-> i, s |-> st] ELSE [op |-> OpMix[k], i |-> i, s |-> "-"]
+(* The relay script (needs N >= 3, NI >= 2): eight forced steps after which node b, which already knows entry *)
+(* i, is handed a relayed packet that carries i AND j; b may forward only what changed (j), and the next    *)
+(* Gossip(b) shows it.  A behaviour that starts with the marked CAS follows the script, then continues       *)
+(* freely.  Without it a multi-entry relayed packet meeting a partially informed node is rare in a walk.     *)
+Hb(i) == [op |-> "hb", i |-> i, s |-> "-"]
+InRelay == Len(hist) >= 1 /\ Len(hist) < 8 /\ hist[1].note = "relay"
+RelayStart == N >= 3 /\ NI >= 2 /\ phase = "run" /\ Len(hist) = 0
+              /\ \E a \in {RE(Node)}, i \in {RE(Inst)} : CasN(a, Hb(i), "relay")
+RelayStep ==
+  /\ phase = "run" /\ InRelay
+  /\ LET k == Len(hist)
+         a == hist[1].n
+         i == hist[1].f.i
+     IN CASE k = 1 -> Gossip(a)
+          [] k = 2 -> \E b \in {RE(Node \ {a})} : Deliver(Plain(hist[1].p), b, FALSE)
+          [] k = 3 -> \E j \in {RE(Inst \ {i})} : Cas(a, Hb(j))
+          [] k = 4 -> \E c \in Node \ {a, hist[3].n} : PushPull(IF a < c THEN a ELSE c, IF a < c THEN c ELSE a, FALSE)
+          [] k = 5 -> \E c \in Node \ {a, hist[3].n} : Gossip(c)
+          [] k = 6 -> \E p \in {x \in sent : Cardinality(Ids(x.chg)) = 2} : Deliver(p, hist[3].n, FALSE)
+          [] k = 7 -> Gossip(hist[3].n)
+(* The reorder script (needs a gated node g and another node a): g's worker merges {i@0} and is held before its *)
+(* QueueBroadcast; a push/pull then brings {i@1}, which is merged and queued at once with a higher version; only *)
+(* then the worker queues its older change.  It must not supersede the newer one: this is where the version test  *)
+(* of Invalidates is observable.                                                                                  *)
+InReorder == Len(hist) >= 1 /\ Len(hist) < 9 /\ hist[1].note = "reorder"
+ReorderStart == GateNodes # {} /\ N >= 2 /\ MaxClock >= 1 /\ phase = "run" /\ Len(hist) = 0
+                /\ \E a \in {RE({x \in Node : GateNodes \ {x} # {}})}, i \in {RE(Inst)} : CasN(a, Hb(i), "reorder")
+ReorderStep ==
+  /\ phase = "run" /\ InReorder
+  /\ LET k == Len(hist)
+         a == hist[1].n
+         i == hist[1].f.i
+     IN CASE k = 1 -> Gossip(a)
+          [] k = 2 -> \E g \in {RE(GateNodes \ {a})} : GateClose(g)
+          [] k = 3 -> Deliver(Plain(hist[1].p), hist[3].n, FALSE)
+          [] k = 4 -> Work(hist[3].n)
+          [] k = 5 -> Tick
+          [] k = 6 -> Cas(a, Hb(i))
+          [] k = 7 -> LET g == hist[3].n IN PushPull(IF a < g THEN a ELSE g, IF a < g THEN g ELSE a, FALSE)
+          [] k = 8 -> Work(hist[3].n)
+Free == RunOK /\ ~InRelay /\ ~InReorder
 SimNext ==
-  \/ RunOK /\ Tick
-  \/ RunOK /\ sent # {} /\ \E p \in {RE(sent)}, n \in {RE(Node)} : Deliver(p, n, FALSE)
-  \/ RunOK /\ sent # {} /\ \E p \in {RE(sent)}, n \in {RE(Node)} : Deliver(p, n, FALSE)
-  \/ RunOK /\ sent # {} /\ \E p \in {RE(sent)}, n \in {RE(Node)} : Deliver(p, n, FALSE)
-  \/ RunOK /\ sent # {} /\ \E p \in {RE(sent)}, n \in {RE(Node)} : Deliver(p, n, FALSE)
-  \/ RunOK /\ sent # {} /\ \E p \in {RE(sent)}, n \in {RE(Node)}, k \in {RE(GarbageKinds)} : DeliverGarbage(p, n, k)
-  \/ RunOK /\ \E n \in {RE(Node)} : Gossip(n)
-  \/ RunOK /\ \E n \in {RE(Node)} : Gossip(n)
-  \/ RunOK /\ \E n \in {RE(Node)}, k \in {RE(1..Len(OpMix))}, i \in {RE(Inst)}, st \in {RE(LiveStates)} : Cas(n, MkFn(k, i, st))
-  \/ RunOK /\ \E n \in {RE(Node)}, k \in {RE(1..Len(OpMix))}, i \in {RE(Inst)}, st \in {RE(LiveStates)} : Cas(n, MkFn(k, i, st))
-  \/ RunOK /\ \E pr \in {RE({x \in Node \X Node : x[1] < x[2]})} : PushPull(pr[1], pr[2], FALSE)
-  \/ RunOK /\ \E pr \in {RE({x \in Node \X Node : x[1] < x[2]})} : PushPull(pr[1], pr[2], TRUE)
-  \/ RunOK /\ \E n \in {RE(Node)} : WatcherArm(n) \/ WatcherRelease(n)
-  \/ RunOK /\ \E n \in {RE(Node)} : Restart(n)
-  \/ RunOK /\ \E S \in {RE((SUBSET Node) \ {{}, Node})} : Partition(S)
-  \/ RunOK /\ Heal
+  \/ RelayStart
+  \/ RelayStart
+  \/ RelayStart
+  \/ RelayStep
+  \/ ReorderStart
+  \/ ReorderStart
+  \/ ReorderStep
+  \/ Free /\ Tick
+  \/ Free /\ sent # {} /\ \E p \in {RE(sent)}, n \in {RE(Node)} : Deliver(p, n, FALSE)
+  \/ Free /\ sent # {} /\ \E p \in {RE(sent)}, n \in {RE(Node)} : Deliver(p, n, FALSE)
+  \/ Free /\ sent # {} /\ \E p \in {RE(sent)}, n \in {RE(Node)} : Deliver(p, n, FALSE)
+  \/ Free /\ sent # {} /\ \E p \in {RE(sent)}, n \in {RE(Node)} : Deliver(p, n, FALSE)
+  \/ Free /\ sent # {} /\ \E p \in {RE(sent)}, n \in {RE(Node)}, k \in {RE(GarbageKinds)} : DeliverGarbage(p, n, k)
+  \/ Free /\ \E n \in {RE(Node)} : Gossip(n)
+  \/ Free /\ \E n \in {RE(Node)} : Gossip(n)
+  \/ Free /\ \E n \in {RE(Node)}, k \in {RE(1..Len(OpMix))}, i \in {RE(Inst)}, st \in {RE(LiveStates)} : Cas(n, MkFn(k, i, st))
+  \/ Free /\ \E n \in {RE(Node)}, k \in {RE(1..Len(OpMix))}, i \in {RE(Inst)}, st \in {RE(LiveStates)} : Cas(n, MkFn(k, i, st))
+  \/ Free /\ \E pr \in {RE({x \in Node \X Node : x[1] < x[2]})} : PushPull(pr[1], pr[2], FALSE)
+  \/ Free /\ \E pr \in {RE({x \in Node \X Node : x[1] < x[2]})} : PushPull(pr[1], pr[2], TRUE)
+  \/ Free /\ \E n \in {RE(Node)} : WatcherArm(n) \/ WatcherRelease(n)
+  \/ Free /\ \E n \in {RE(Node)} : Restart(n)
+  \/ Free /\ \E S \in {RE((SUBSET Node) \ {{}, Node})} : Partition(S)
+  \/ Free /\ Heal
+  \/ Free /\ GateNodes # {} /\ \E n \in {RE(GateNodes)} : GateClose(n)
+  \/ Free /\ GateNodes # {} /\ RE(1..3) = 1 /\ \E n \in {RE(GateNodes)} : GateOpen(n)
+  \/ Free /\ GateNodes # {} /\ sent # {} /\ \E p \in {RE(sent)}, n \in {RE(GateNodes)} : gate[n] /\ Deliver(p, n, FALSE)
+  \/ Free /\ GateNodes # {} /\ \E n \in {RE(GateNodes)} : Work(n)
+  \/ Free /\ GateNodes # {} /\ \E n \in {RE(GateNodes)} : Work(n)
+  \/ Free /\ \E n \in {RE(Node)} : DeleteKey(n)
+  \/ Free /\ \E n \in {RE(Node)} : store[n].del /\ Cleanup(n)
+  \/ Free /\ \E n \in {RE(Node)} : store[n].del /\ Cleanup(n)
   \/ StartQuiesce
   \/ QStep
 SimSpec == Init /\ [][SimNext]_vars
 
 -----------------------------------------------------------------------------
 (* Invariants and action properties *)
+QEntry(b) == /\ b.chg \in Desc /\ b.left \in 1..T /\ b.ver \in Nat /\ b.ver >= 1
+             /\ b.del \in BOOLEAN /\ b.upd \in -1..MaxClock
 TypeOK ==
   /\ clock \in 0..MaxClock
-  /\ \A n \in Node : store[n].val \in Desc /\ store[n].ver \in Nat
-  /\ \A n \in Node : (store[n].ver = 0) => store[n].val = Empty
-  /\ sent \subseteq Desc
-  /\ \A n \in Node : \A b \in queueL[n] \cup queueG[n] : b.chg \in Desc /\ Ids(b.chg) # {} /\ b.left \in 1..T /\ b.ver \in 1..store[n].ver
+  /\ \A n \in Node : /\ store[n].val \in Desc /\ store[n].ver \in Nat
+                     /\ store[n].del \in BOOLEAN /\ store[n].upd \in -1..MaxClock
+                     /\ (store[n].ver = 0) => store[n] = C0
+                     /\ (~store[n].del) => store[n].upd = -1
+  /\ \A p \in sent : p.chg \in Desc /\ p.del \in BOOLEAN
+  /\ \A n \in Node : \A b \in queueL[n] \cup queueG[n] : QEntry(b) /\ (Ids(b.chg) # {} \/ b.del)
+  /\ \A n \in Node : /\ wk[n].st \in {"idle", "dec", "enc"}
+                     /\ Len(inbox[n]) <= InboxCap
+                     /\ (wk[n].st # "idle") => gate[n]            \* a worker is only ever held behind a closed gate
+                     /\ (wk[n].st = "idle") => inbox[n] = <<>>   \* and an idle worker has an empty channel
+                     /\ gate[n] => n \in GateNodes
 
 Tomb(n, i)  == store[n].val[i].st = LEFT
 Alive(n, i) == store[n].val[i] # Absent /\ ~Tomb(n, i)
 
 (* C04 *)
 TombstonesInvisible ==
-  \A n \in Node : NoLeft(Read(n)) /\ NoLeft(watch[n].last)
+  \A n \in Node : NoLeft(Read(n)) /\ NoLeft(watch[n].last) /\ NoLeft(pw[n].last)
 
-(* Tokens are not state of the specification: an entry of instance i that is not LEFT carries i's own *)
-(* tokens, a LEFT entry carries none; the projection of the harness checks exactly that on the code.   *)
+(* Tokens are not state of the specification: a live entry carries its id's own tokens, a tombstone carries *)
+(* none; the projection of the harness checks exactly that on the code.                                      *)
 
 TombstonesForwardedStep ==     \* a step that creates or renews a tombstone on n queues a broadcast that carries it
-  \A n \in Node, i \in Inst :
+  \A n \in Node, i \in Inst :    \* (a gated worker holds it until its QueueBroadcast step)
      (store'[n].val[i].st = LEFT /\ store'[n].val[i] # store[n].val[i])
-       => \E b \in queueL'[n] \cup queueG'[n] : b.chg[i] = store'[n].val[i] /\ b.left = T
+       => \/ \E b \in queueL'[n] \cup queueG'[n] : b.chg[i] = store'[n].val[i] /\ b.left = T
+          \/ wk'[n].st = "enc" /\ wk'[n].m.chg[i] = store'[n].val[i]
 TombstonesForwarded == [][TombstonesForwardedStep]_vars
 (* LocalState carries the tombstones: PushPull hands store[n].val (tombstones included) to the peer, and *)
 (* the harness reads store[n].val of the real node out of the very bytes LocalState returns.            *)
@@ -460,36 +727,57 @@ GCOnlyExpired == [][GCOnlyExpiredStep]_vars
 NoExpiredTombstoneStored ==   \* what a changing merge leaves behind contains no expired tombstone
   [][\A n \in Node : store'[n] # store[n] => \A i \in Inst : ~Expired(store'[n].val[i], clock')]_vars
 
+(* key-level tombstone (KV.Delete) *)
+DeletedStaysDeletedStep ==    \* nothing - no older update, no newer one, no CAS - clears the Deleted flag while the key is kept
+  \A n \in Node : (store[n].del /\ store'[n].ver # 0) => (store'[n].del /\ store'[n].upd >= store[n].upd)
+DeletedStaysDeleted == [][DeletedStaysDeletedStep]_vars
+RemovedOnlyWhenObsoleteStep ==   \* a deleted key leaves a running node only after ObsoleteTimeout (checked where nodes do not restart)
+  AllowRestart \/ \A n \in Node : (store[n].ver # 0 /\ store'[n].ver = 0) => Obsolete(store[n], clock)
+RemovedOnlyWhenObsolete == [][RemovedOnlyWhenObsoleteStep]_vars
+DeletedNotRevivedStep ==      \* a node that does not hold the key never creates it from a message that says "deleted"
+  \A n \in Node : (store[n].ver = 0 /\ store'[n].ver # 0) => ~store'[n].del
+DeletedNotRevived == [][DeletedNotRevivedStep]_vars
+
 (* C06 *)
 RR(s, c) == Merge(s, c, FALSE, 0).result
 Contains(b, o) == \A s \in Desc : RR(RR(s, o), b) = RR(s, b)
-(* a queued update is superseded only by an update that contains it - up to tombstones that are *)
-(* older than the retention, which every receiver would collect on arrival anyway             *)
-InvalidationSafe == \A x \in inval : Contains(x.b, GCd(x.o, clock))
+(* a queued update is superseded only by an update that contains it - up to tombstones that are older  *)
+(* than the retention, which every receiver would collect on arrival anyway; and up to broadcasts of a *)
+(* key deletion that is itself obsolete (after Cleanup a node's versions restart from 1, so such a     *)
+(* left-over broadcast can be superseded by an older update: observation O4)                           *)
+InvalidationSafe == \A x \in inval : (x.od /\ (clock - x.ou > ObsoleteTimeout)) \/ Contains(x.b, GCd(x.o, clock))
 
-OnlyChangesForwardedStep ==   \* what is queued is exactly what changed in the store, as it is now in the store
+OnlyChangesForwardedStep ==   \* the change a merge hands on is exactly what changed in the store, as it is now in the store
   \A x \in fwd' :
-     /\ \A i \in Ids(x.chg) : x.chg[i] = store'[x.n].val[i] /\ x.chg[i] # store[x.n].val[i]
-     /\ \A i \in Inst \ Ids(x.chg) : \/ store'[x.n].val[i] = store[x.n].val[i]
-                                      \/ store'[x.n].val[i] = Absent   \* collected, or killed by an expired tombstone
+     \/ store'[x.n].del       \* the whole value travels with the Deleted flag
+     \/ /\ \A i \in Ids(x.chg) : x.chg[i] = store'[x.n].val[i] /\ x.chg[i] # store[x.n].val[i]
+        /\ \A i \in Inst \ Ids(x.chg) : \/ store'[x.n].val[i] = store[x.n].val[i]
+                                         \/ store'[x.n].val[i] = Absent   \* collected, or killed by an expired tombstone
 OnlyChangesForwarded == [][OnlyChangesForwardedStep]_vars
 
 NoInventedContent ==
   \A n \in Node, i \in Inst : store[n].val[i] # Absent => <<i, store[n].val[i]>> \in written
 SentIsWritten ==
-  \A p \in sent : \A i \in Ids(p) : <<i, p[i]>> \in written
+  \A p \in sent : \A i \in Ids(p.chg) : <<i, p.chg[i]>> \in written
 
+(* a watcher that is not blocked in its callback has seen the value readers see - except that the removal *)
+(* of an obsolete deleted key (Cleanup) is not announced (observation O3)                                  *)
 WatcherNeverStale ==
   \A n \in WatchNodes :
      \/ watch[n].held /\ watch[n].pending
-     \/ IF store[n].ver = 0 THEN ~watch[n].called ELSE watch[n].called /\ watch[n].last = Read(n)
+     \/ IF store[n].ver = 0 THEN (~watch[n].called \/ MaxDel > 0) ELSE watch[n].called /\ watch[n].last = Read(n)
+PrefixWatcherNeverStale ==
+  \A n \in Node : IF store[n].ver = 0 THEN (~pw[n].called \/ MaxDel > 0) ELSE pw[n].called /\ pw[n].last = Read(n)
 
-VersionCountsChanges == \A n \in Node : \A b \in queueL[n] \cup queueG[n] : b.ver <= store[n].ver
+VersionCountsChanges ==     \* (after a Cleanup versions restart from 1 while older broadcasts are still queued)
+  MaxDel > 0 \/ \A n \in Node : \A b \in queueL[n] \cup queueG[n] : b.ver <= store[n].ver
 
-(* convergence *)
-Converged == \A a, b \in Node : Read(a) = Read(b)
+(* convergence: what readers see, a deleted key counting as gone *)
+Vis(n) == IF store[n].del THEN Empty ELSE Read(n)
+Converged == \A a, b \in Node : Vis(a) = Vis(b)
 WatchersCaughtUp == \A n \in WatchNodes : ~watch[n].held /\ (store[n].ver # 0 => watch[n].called /\ watch[n].last = Read(n))
-QuiescentOK == phase = "done" => Converged /\ WatchersCaughtUp
+WorkersIdle == \A n \in Node : wk[n].st = "idle" /\ ~gate[n]
+QuiescentOK == phase = "done" => Converged /\ WatchersCaughtUp /\ WorkersIdle
 
 Healed == cut = {}
 Fairness == /\ \A a, b \in Node : WF_vars(PushPull(a, b, FALSE))
@@ -498,5 +786,5 @@ FairSpec == Spec /\ Fairness
 Convergence == (<>[]Healed) => <>[](Converged /\ WatchersCaughtUp)
 
 (* behaviour emission (simulation): one JSON line per finished behaviour *)
-EmitDone == phase = "done" => PrintT(ToJson([hist |-> hist, final |-> Read(1)]))
+EmitDone == phase = "done" => PrintT(ToJson([hist |-> hist, final |-> Vis(1)]))
 =============================================================================
